@@ -1,5 +1,5 @@
 (* C14_Proofs10.v — the proposed patch for the stale delete: guarded deletes. *)
-From Verif Require Import Base C14_Model C14_Check C14_Proofs2 C14_Proofs3 C14_Proofs4 C14_Proofs5 C14_Proofs6 C14_Proofs7 C14_Proofs8.
+From Verif Require Import Base C14_Model C14_Count C14_Proofs2 C14_Proofs3 C14_Proofs4 C14_Proofs5 C14_Proofs6 C14_Proofs7 C14_Proofs8.
 
 (* ---- the proposed patch ------------------------------------------------------------------ *)
 (* [s_guard] = true: delete(Stmts, query) only removes the entry the deleting call created
